@@ -214,3 +214,170 @@ def counters(ob, tier):
 
 def run(ob, tier):
     return {"predicate": predicate, "counters": counters}[ob["which"]](ob, tier)
+
+
+# ---------------------------------------------------------------- candidate-set filters
+def backend_fields():
+    src = open(mirrun.REPO + "/lib/src/backends.rs").read()
+    m = re.search(r"pub struct Backend \{(.*?)\n\}", src, re.S)
+    return re.findall(r"^\s*(?:pub(?:\([\w:]+\))? )?(\w+):", m.group(1), re.M)
+
+
+def filters(ob, tier):
+    """the closures that build candidate sets are exactly their one-line predicates"""
+    problems, wit, fnames, nodes = [], [], [], 0
+    tq, ts = 0, 0.0
+    bf = backend_fields()
+    # (1) available_backends: backup == wanted && can_open()
+    fn = mirrun.get_fn("lib", "::available_backends::{closure#0}")
+    ex = engine.Executor(fn)
+    ev = ex.run()
+    q = Q(ex.ctx)
+    fnames.append(fn.name)
+    nodes += ex.stats["nodes"]
+    ret = [e for e in ev if e.kind == "return"][0]
+    r0 = ret.env["_0"].term
+    co = [e for e in ev if e.kind == "call" and e.callee.endswith("Backend::can_open")]
+    bools = {k: v for k, v in ex.initial.items() if v.sort == "Bool"}
+    bfield = [k for k in bools if re.search(r"\.(\d+)$", k) and bf[int(re.search(r"\.(\d+)$", k).group(1))] == "backup" and not k.startswith("(*_1)")]
+    cap = [k for k in bools if k not in bfield]
+    if len(co) != 1 or len(bfield) != 1 or len(cap) != 1:
+        return {"verdict": "inconclusive", "why": "available_backends closure shape: can_open=%d backup reads=%s captured=%s" % (len(co), bfield, cap)}
+    same = "(= %s %s)" % (bools[bfield[0]].term, bools[cap[0]].term)
+    for name, a in (("selects a backend whose backup flag differs from the requested tier or that cannot be opened", [ret.guard, r0, engine.NOT(engine.AND(same, co[0].guard, co[0].result.term))]),
+                    ("drops an eligible backend of the requested tier", [ret.guard, engine.NOT(r0), same, co[0].guard, co[0].result.term]),
+                    ("skips can_open for a backend of the requested tier", [ret.guard, same, engine.NOT(co[0].guard)])):
+        v, _, d = q(a)
+        if v != "unsat":
+            problems.append("available_backends filter %s (%s)" % (name, v))
+    wit.append(q([ret.guard, r0])[0])
+    tq += q.n
+    ts += q.secs
+    # (2) fail-open: status == Normal && can_try() == Some(OKAY); no health, no backup test
+    fn = mirrun.get_fn("lib", "::next_available_backend_with_key::{closure#0}")
+    ex = engine.Executor(fn)
+    ev = ex.run()
+    q = Q(ex.ctx)
+    fnames.append(fn.name)
+    nodes += ex.stats["nodes"]
+    ret = [e for e in ev if e.kind == "return"][0]
+    r0 = ret.env["_0"].term
+    st = eq_calls(ev, "BackendStatus")
+    ct = [e for e in ev if e.kind == "call" and re.search(r"RetryPolicy>::can_try$", e.callee)]
+    if len(st) != 1 or len(ct) != 1:
+        return {"verdict": "inconclusive", "why": "fail-open closure shape: status eq=%d can_try=%d" % (len(st), len(ct))}
+    pv = promoted_variant("lib", "::next_available_backend_with_key::{closure#0}", 0)
+    if not (pv or "").endswith("BackendStatus::Normal"):
+        problems.append("fail-open filter compares the status with %s" % pv)
+    dsome = ex.initial.get("discr(%s)" % ct[0].dest)
+    if dsome is None:
+        return {"verdict": "inconclusive", "why": "can_try result never inspected"}
+    okay = engine.AND("(= %s %s)" % (dsome.term, engine.bv(1, 64)),
+                      "(= %s %s)" % (ex.initial["discr((%s as Some).0)" % ct[0].dest].term if ("discr((%s as Some).0)" % ct[0].dest) in ex.initial else "false", engine.bv(0, 64)))
+    want = engine.AND(st[0].result.term, ct[0].guard, okay)
+    v, _, d = q([ret.guard, r0, engine.NOT(want)])
+    if v != "unsat":
+        problems.append("fail-open filter admits a backend that is not Normal or is backing off (%s)" % v)
+    v, _, d = q([ret.guard, engine.NOT(r0), st[0].result.term, ct[0].guard, okay])
+    if v != "unsat":
+        problems.append("fail-open filter drops a Normal, non-backing-off backend (%s)" % v)
+    if [e for e in ev if e.kind == "call" and re.search(r"is_healthy|can_open", e.callee)]:
+        problems.append("fail-open filter consults health (it must not: that is what fail-open means)")
+    wit.append(q([ret.guard, r0])[0])
+    tq += q.n
+    ts += q.secs
+    # (3) find_sticky: a sticky match is returned only if it can be opened
+    fn = mirrun.get_fn("lib", "::find_sticky::{closure#1}")
+    ex = engine.Executor(fn)
+    ev = ex.run()
+    q = Q(ex.ctx)
+    fnames.append(fn.name)
+    nodes += ex.stats["nodes"]
+    ret = [e for e in ev if e.kind == "return"][0]
+    d0 = ret.env["discr(_0)"].term
+    co = [e for e in ev if e.kind == "call" and e.callee.endswith("Backend::can_open")]
+    if len(co) != 1:
+        return {"verdict": "inconclusive", "why": "find_sticky closure shape"}
+    some = "(= %s %s)" % (d0, engine.bv(1, 64))
+    v, _, d = q([ret.guard, some, engine.NOT(co[0].result.term)])
+    if v != "unsat":
+        problems.append("find_sticky returns a sticky backend that cannot be opened (%s)" % v)
+    v, _, d = q([ret.guard, engine.NOT(some), co[0].result.term])
+    if v != "unsat":
+        problems.append("find_sticky drops an openable sticky backend (%s)" % v)
+    wit.append(q([ret.guard, some])[0])
+    tq += q.n
+    ts += q.secs
+    res = {"paths": nodes, "functions": fnames, "witness": "each filter can accept: %s" % wit, "witness_ok": all(x == "sat" for x in wit)}
+    if problems:
+        return dict(res, verdict="counterexample", text="; ".join(problems), model={"problems": problems}, queries=tq, solver_s=ts, replay={"reproduced": False, "why": "no native replay"})
+    return dict(res, verdict="holds", queries=tq, solver_s=round(ts, 2))
+
+
+def cascade(ob, tier):
+    """next_available_backend_with_key: primary tier, else backup tier, else fail-open, else None"""
+    fn = mirrun.get_fn("lib", "::next_available_backend_with_key", sig="&mut BackendList")
+    ex = engine.Executor(fn)
+    ev = ex.run()
+    q = Q(ex.ctx)
+    res = {"paths": ex.stats["nodes"], "functions": [fn.name]}
+    av = [e for e in ev if e.kind == "call" and e.callee.endswith("::available_backends")]
+    em = [e for e in ev if e.kind == "call" and e.callee.endswith("::is_empty")]
+    pol = [e for e in ev if e.kind == "call" and re.search(r"LoadBalancingAlgorithm>::next_available_backend$", e.callee)]
+    flt = [e for e in ev if e.kind == "call" and "Iterator>::filter::" in e.callee]
+    rets = [e for e in ev if e.kind == "return"]
+    if len(av) != 2 or len(em) != 3 or len(pol) != 2 or len(flt) != 1 or len(rets) != 1:
+        return dict(res, verdict="inconclusive", why="shape: available_backends=%d is_empty=%d policy=%d filter=%d" % (len(av), len(em), len(pol), len(flt)))
+    a1, a2 = av
+    e1, e2, e3 = em
+    problems = []
+    if a1.args[1]["text"] != "const false" or a2.args[1]["text"] != "const true":
+        problems.append("tiers are not asked in the order primary (backup=false) then backup (backup=true): %s, %s" % (a1.args[1]["text"], a2.args[1]["text"]))
+    # is_empty is a function of the vector: when the backup tier was not fetched the second
+    # emptiness test looks at the same, unchanged vector
+    contract = [engine.OR(a2.guard, "(= %s %s)" % (e2.result.term, e1.result.term))]
+    ret = rets[0]
+    p_normal = [p for p in pol if True]
+    checks = [
+        ("the backup tier is consulted although a primary backend qualifies", [a2.guard, engine.NOT(e1.result.term)]),
+        ("the backup tier is not consulted although no primary qualifies", [ret.guard, e1.result.term, engine.NOT(a2.guard)]),
+        ("fail-open candidates are built although a primary or backup backend qualifies", [flt[0].guard, engine.NOT(e2.result.term)]),
+        ("the policy is asked to pick from an empty tier", [pol[1].guard if pol[1].guard != pol[0].guard else "false", "false"]),
+    ]
+    # which policy call is the normal one (before the filter) and which the fail-open one
+    normal = [p for p in pol if q(contract + [p.guard, flt[0].guard])[0] == "unsat"]
+    failopen = [p for p in pol if p not in normal]
+    if len(normal) != 1 or len(failopen) != 1:
+        return dict(res, verdict="inconclusive", why="cannot tell the normal policy call from the fail-open one")
+    checks = checks[:3] + [
+        ("the policy picks from an empty primary/backup tier", [normal[0].guard, e2.result.term]),
+        ("a non-empty primary/backup tier is not handed to the policy", [ret.guard, engine.NOT(e2.result.term), engine.NOT(normal[0].guard)]),
+        ("the fail-open policy call happens with an empty fail-open set", [failopen[0].guard, e3.result.term]),
+        ("a non-empty fail-open set is not used", [ret.guard, e2.result.term, e3.guard, engine.NOT(e3.result.term), engine.NOT(failopen[0].guard)]),
+        ("two selections are made for one request", [normal[0].guard, failopen[0].guard]),
+    ]
+    for name, a in checks:
+        v, _, d = q(contract + a)
+        if v == "inconclusive":
+            return dict(res, verdict="inconclusive", why=d)
+        if v != "unsat":
+            problems.append("%s (%s)" % (name, v))
+    # the result is the policy's pick
+    d0 = ret.env.get("discr(_0)")
+    wit = [q(contract + [normal[0].guard])[0], q(contract + [failopen[0].guard])[0], q(contract + [a2.guard])[0]]
+    res["witness"] = "normal / fail-open / backup paths reachable: %s" % wit
+    res["witness_ok"] = all(x == "sat" for x in wit)
+    if problems:
+        return dict(res, verdict="counterexample", text="; ".join(problems), model={"problems": problems}, queries=q.n, solver_s=q.secs, replay={"reproduced": False, "why": "no native replay"})
+    return dict(res, verdict="holds", queries=q.n, solver_s=round(q.secs, 2))
+
+
+_run0 = run
+
+
+def run(ob, tier):
+    if ob["which"] == "filters":
+        return filters(ob, tier)
+    if ob["which"] == "cascade":
+        return cascade(ob, tier)
+    return _run0(ob, tier)
